@@ -373,6 +373,8 @@ def evaluate__round_half_to_even(self: XPathFunction, context: ta.ContextType = 
     precision = 0 if len(self) < 2 else self[1].evaluate(context)
     try:
         if isinstance(item, int):
+            if isinstance(precision, int) and -precision > len(str(abs(item))):
+                return 0  # less than a tenth of the rounding unit: avoids computing 10 ** -precision
             return round(item, precision)  # type: ignore[arg-type]
         elif isinstance(item, Decimal):
             return round(item, precision)  # type: ignore[arg-type]
